@@ -350,6 +350,42 @@ def mutate_container(d):
             v[77] = []
 
 
+def load_corpus():
+    import json
+    import os
+    out = []
+    d = os.path.join(core.VERIF, 'corpus', PID)
+    if os.path.isdir(d):
+        for fn in sorted(os.listdir(d)):
+            if fn.endswith('.jsonl'):
+                for ln in open(os.path.join(d, fn)):
+                    if ln.strip():
+                        out.append(json.loads(ln))
+    return out
+
+
+def replay(chk, obj):
+    """re-evaluate a replay file written by this check on the current implementation"""
+    import json
+    pt, pp, dc = _pt()
+    print(json.dumps(obj, indent=1)[:3000])
+    case = obj.get('case')
+    if obj.get('oracle') == 'corpus' and isinstance(case, dict):
+        a, b = pp.parse(case['a']), pp.parse(case['b'])
+        print('now: a == b ->', a == b, ' expected', case['expect'])
+        return 0 if (a == b) == case['expect'] else 1
+    if isinstance(case, str) and case.count('|') == 10:
+        a = annot.undump(case)
+        print('annotation:', a.serialize())
+        for t in range(20):
+            p = permute(a, chk.rng, reverse=(t == 0))
+            if not (a == p):
+                print('still failing: order of modifications matters:', annot.dump(p, False))
+                return 1
+        print('no failure reproduced with 20 reorderings (perturbation oracles are randomised: rerun ./check C20)')
+    return 0
+
+
 def run(chk):
     pt, pp, dc = _pt()
     tier = chk.tier
@@ -365,6 +401,18 @@ def run(chk):
     chk.rule = ('generated annotations (all modification kinds, up to 4 mods per position, multipliers, int/float twin values) x '
                 '{copy, order permutation, each single-field perturbation, unrelated annotation}; non-trivial = at least one '
                 'modification present; distinct = distinct protocol line')
+    # ------------------------------------------------------------------ corpus (past failures first)
+    def o_corpus(c):
+        a, b = pp.parse(c['a']), pp.parse(c['b'])
+        if (a == b) != c['expect'] or (b == a) != c['expect']:
+            return f"parse({c['a']!r}) == parse({c['b']!r}) is {a == b}, expected {c['expect']}"
+        return None
+    corpus = load_corpus()
+    chk.oracle('corpus', [c for c in corpus if c.get('kind') == 'eq_strings'], o_corpus, key_fn=lambda c: c['a'] + ' ' + c['b'])
+    chk.correspond('corpus_eq', DRV, [c for c in corpus if c.get('kind') == 'eq_strings'],
+                   lambda c: 'eq\t%s\t%s' % (annot.dump(pp.parse(c['a']), False), annot.dump(pp.parse(c['b']), False)),
+                   lambda c: str(pp.parse(c['a']) == pp.parse(c['b'])))
+
     N = 250 if tier == 'quick' else 6000
     anns = [gen(rng, small=(i % 4 == 0)) for i in range(N)]
     for a in anns:
@@ -511,7 +559,8 @@ def run(chk):
                    compare=lambda im, m: im == annot.canon_dump(m), nontrivial_fn=lambda kw, im: len(kw) > 2)
 
     # ------------------------------------------------------------------ oracle: the property on the implementation
-    def o_equality(a):
+    def o_equality(d):
+        a = annot.undump(d)
         d0 = annot.dump(a, sort_internal=False)
         if not (a == a):
             return 'not reflexive'
@@ -539,10 +588,13 @@ def run(chk):
             return 'comparison changed its argument'
         return None
 
-    osel = anns if (chk.broken() or tier != 'quick') else anns[::2]
-    chk.oracle('equality_laws', osel, o_equality, nontrivial_fn=lambda a: a.has_mods(), key_fn=lambda a: annot.dump(a))
+    udumps = [annot.dump(a, sort_internal=False) for a in anns]
+    osel = udumps if (chk.broken() or tier != 'quick') else udumps[::2]
+    nontriv = lambda d: d.count('|N') < 9  # noqa: E731
+    chk.oracle('equality_laws', osel, o_equality, nontrivial_fn=nontriv, key_fn=lambda d: d)
 
-    def o_dict_roundtrip(a):
+    def o_dict_roundtrip(d):
+        a = annot.undump(d)
         d0 = annot.dump(a)
         s0 = a.serialize()
         # annotation level
@@ -571,9 +623,10 @@ def run(chk):
             return 'get_mods/pop_mods/strip_mods changed their argument'
         return None
 
-    chk.oracle('dict_roundtrip', osel, o_dict_roundtrip, nontrivial_fn=lambda a: a.has_mods(), key_fn=lambda a: annot.dump(a))
+    chk.oracle('dict_roundtrip', osel, o_dict_roundtrip, nontrivial_fn=nontriv, key_fn=lambda d: d)
 
-    def o_copies(a):
+    def o_copies(d):
+        a = annot.undump(d)
         d0 = annot.dump(a, sort_internal=False)
         c = a.copy()
         if annot.dump(c, sort_internal=False) != d0:
@@ -616,9 +669,10 @@ def run(chk):
             return 'add_mod_dict kept a reference to the dictionary it was given'
         return None
 
-    chk.oracle('copies_independent', osel, o_copies, nontrivial_fn=lambda a: a.has_mods(), key_fn=lambda a: annot.dump(a))
+    chk.oracle('copies_independent', osel, o_copies, nontrivial_fn=nontriv, key_fn=lambda d: d)
 
-    def o_strip(a):
+    def o_strip(d):
+        a = annot.undump(d)
         d0 = annot.dump(a)
         s = a.strip()
         want = annot.esc(a._sequence) + '|N|N|N|N|N|N|N|N|None|N'
@@ -635,7 +689,7 @@ def run(chk):
             return 'strip_mods is not the bare sequence'
         return None
 
-    chk.oracle('strip', osel, o_strip, nontrivial_fn=lambda a: a.has_mods(), key_fn=lambda a: annot.dump(a))
+    chk.oracle('strip', osel, o_strip, nontrivial_fn=nontriv, key_fn=lambda d: d)
 
     if tier == 'thorough':
         chk.leanchecker(['PeptVerif.Props.C20', 'PeptVerif.Model.AnnotEq', 'PeptVerif.Model.ModDict'])
